@@ -152,9 +152,42 @@ func runC02(t *testing.T, e *worlds.Env, tier string) (bool, any) {
 		model.App = worlds.Stream(model.Key, appLen)
 		plan.App = model.App
 		spec = genRouteList(e, b, o, 0)
+		var forced []worlds.Chunk
+		if appLen >= 400 && e.T.Prob(1, 5, "flip-scenario") {
+			// targeted: r0 undecided on the first segment, r1 decided 'no' on the
+			// original stream, r2 undecided; then r0 matches, is non-terminal and
+			// consumes k bytes after which r1 matches (a cached verdict must not
+			// survive a handler that changed the stream)
+			bb := 1 + e.T.Choose(6, "flip-b")
+			k := -1
+			for x := 1; x < 250; x++ {
+				if model.App[bb-1] >= 128 && model.App[x+bb-1] < 128 {
+					k = x
+					break
+				}
+			}
+			if k > 0 {
+				a := bb + 1 + e.T.Choose(100, "flip-a")
+				c := a + 1 + e.T.Choose(3000, "flip-c")
+				spec = &RLSpec{Routes: []RSpec{
+					{Sets: [][]MSpec{{{ID: b.id("m"), Need: a, Kind: VYes, Mode: e.T.Choose(4, "m-mode")}}}, Handlers: []HSpec{{Kind: "consume", Name: b.id("con"), K: k}}},
+					{Sets: [][]MSpec{{{ID: b.id("m"), Need: bb, Kind: VContent, Thr: 128, Mode: e.T.Choose(4, "m-mode")}}}, Handlers: []HSpec{{Kind: "recorder", Name: b.id("rec"), MaxBuf: 4096}}},
+					{Sets: [][]MSpec{{{ID: b.id("m"), Need: c, Kind: VYes, Mode: e.T.Choose(4, "m-mode")}}}, Handlers: []HSpec{{Kind: "recorder", Name: b.id("rec"), MaxBuf: 4096}}},
+				}}
+				first := bb + e.T.Choose(a-bb, "flip-first")
+				forced = append([]worlds.Chunk{{N: first}}, e.MakeChunks(appLen-first, 20*time.Millisecond)...)
+				if len(forced) > 1 && forced[1].Delay == 0 {
+					forced[1].Delay = time.Millisecond
+				}
+				e.S.Stat("probe_flip_scenario", 1)
+			}
+		}
 		annotate(spec, "L", "", cfg)
 		routes := b.RouteList(spec, "routing")
 		plan.Chunks = e.MakeChunks(appLen, 20*time.Millisecond)
+		if forced != nil {
+			plan.Chunks = forced
+		}
 		switch e.T.Weighted("client-end", 5, 2, 1, 2) {
 		case 0:
 			plan.End = worlds.EndHalfClose
